@@ -568,7 +568,7 @@ def judge(pre_xml, msg_xml, post_xml, outcome, warns, exc_mro=()):
     changed_bytes = pre_xml != post_xml
     changed = canon(pre.root) != canon(post.root)
     v.nontrivial = changed_bytes or raised or bool(mos_warns)
-    v.facts = {'raised': raised, 'changed': changed, 'warns': dict(mos_warns)}
+    v.facts = {'raised': raised, 'changed': changed, 'warns': dict(mos_warns), 'merge_error': _is_merge_error(exc_mro)}
 
     # ---- C05: a raising add leaves the running order exactly as it was
     if raised and changed_bytes:
@@ -842,9 +842,12 @@ def _judge_story(pre, post, m, raised, mos_warns, D, v):
         return
     pre_canon = dict(zip(L, pre.story_canons))
     if raised:
-        if not x.err_allowed:
+        # where the relation lets the library refuse (a repeated / self-referential reference), the refusal is a
+        # MosMergeError; any other exception on a message whose references all resolve is not the protocol's outcome
+        if not x.err_allowed or (x.status in ('selfref', 'selfref-delete') and not v.facts.get('merge_error')):
             D.append(Dev(P_ORDER, 'raised-on-resolvable-message',
-                         {'kind': kind, 'pre': L, 'target': m.target, 'sources': m.sources}))
+                         {'kind': kind, 'pre': L, 'target': m.target, 'sources': m.sources,
+                          'library_error': bool(v.facts.get('merge_error'))}))
         return
     _warn_check(mos_warns, x, D, raised, kind)
     if x.status == 'selfref':
@@ -985,9 +988,10 @@ def _judge_item(pre, post, m, raised, mos_warns, D, v):
     pre_canon = dict(zip(L, [canon(i) for i in items_of(ps)]))
     post_canons = [canon(i) for i in items_of(qs)]
     if raised:
-        if not x.err_allowed:
+        if not x.err_allowed or (x.status in ('selfref', 'selfref-delete') and not v.facts.get('merge_error')):
             D.append(Dev('C02', 'raised-on-resolvable-message',
-                         {'kind': kind, 'pre': L, 'target': m.target, 'sources': m.sources}))
+                         {'kind': kind, 'pre': L, 'target': m.target, 'sources': m.sources,
+                          'library_error': bool(v.facts.get('merge_error'))}))
         return
     _warn_check(mos_warns, x, D, raised, kind)
     if x.status == 'selfref':
